@@ -16,7 +16,7 @@
 (* ms.handed : ghost: every name a scope has returned through a direct     *)
 (*             resolution call, as [s: scope, str: printed form, uri]      *)
 (***************************************************************************)
-EXTENDS Containers
+EXTENDS Eq
 
 Hand(s, q) == IF q.ok THEN {[s |-> s, str |-> Printed(q), uri |-> Uri(q)]} ELSE {}
 MgrOf(ms, h) == ms.con[h].mgr
@@ -56,6 +56,7 @@ ApplyF(ms, a) ==
     [] a.op = "DocFromRecs" -> DoDocFromRecs(ms, a)
     [] a.op = "Unified"    -> DoUnified(ms, a)
     [] a.op = "GetRecord"  -> DoGetRecord(ms, a)
+    [] a.op = "CompareAll" -> DoCompareAll(ms, a)
 
 (* Fold ApplyF over a sequence of actions *)
 RECURSIVE RunF(_, _, _)
